@@ -48,6 +48,12 @@ def cases(seed, tier):
         t['extras'] = [['timestamp'], ['tiny_values'], ['timestamp', 'tiny_values']][r % 3]
         out.append({'table': t, 'config': ['gaussian', 'kde', 'default', 'kde'][r % 4], 'container': 'df',
                     'n_sample': 1500, 'seed_kind': 'int', 'seed': int(rng.integers(1 << 31)), 'recovery': False})
+    # id-like integer constants (beyond 2**53 a float64 round trip changes the value)
+    for r in range(6 if tier == 'quick' else 40):
+        t = mv.random_table_spec(rng, tier, d=int(rng.integers(2, 4)), n=200, marg_pool=['normal', 'gamma', 'integer'])
+        t['extras'] = ['int_constant']
+        out.append({'table': t, 'config': mv.CONFIGS[r % 5], 'container': 'df', 'n_sample': int(rng.choice([3, 1500])),
+                    'seed_kind': 'int', 'seed': int(rng.integers(1 << 31)), 'recovery': False})
     # well-specified configurations for the recovery clause
     for r in range(12 if tier == 'quick' else 120):
         pool = ['normal', 'uniform', 'beta', 'gamma', 'student_t']
@@ -57,6 +63,14 @@ def cases(seed, tier):
         out.append({'table': t, 'config': 'true_families', 'container': 'df', 'n_sample': 4000,
                     'seed_kind': 'int', 'seed': int(rng.integers(1 << 31)), 'recovery': True})
     return out
+
+
+def _exactly(got, want):
+    """Equality without a round trip through float64 when the training constant is an integer."""
+    if isinstance(want, (int, np.integer)):
+        g = got.item() if hasattr(got, 'item') else got
+        return (isinstance(g, int) or float(g).is_integer()) and int(g) == int(want)
+    return bool(got == want)
 
 
 TRUE_CLASS = {'normal': 'GaussianUnivariate', 'uniform': 'UniformUnivariate', 'beta': 'BetaUnivariate',
@@ -115,8 +129,10 @@ def run_case(spec, ctx):
     const = [dfc[c].nunique() == 1 for c in cols]
     for j, c in enumerate(cols):
         if const[j]:
-            ctx.check((V[:, j] == dfc[c].iloc[0]).all(), 'sample.constant-column', 'C01:constant-column-not-reproduced',
-                      lambda: dict(where, column=repr(c), want=float(dfc[c].iloc[0]), got=V[:3, j]))
+            want, got = dfc[c].iloc[0], out[c].to_numpy()
+            same = (V[:, j] == float(want)).all() and _exactly(got[0], want) and _exactly(got[-1], want)
+            ctx.check(same, 'sample.constant-column', 'C01:constant-column-not-reproduced',
+                      lambda: dict(where, column=repr(c), want=repr(want), got=[repr(g) for g in got[:3]]))
     # deterministic layer ----------------------------------------------------------------------------------
     draws = [e for e in log if e['fn'] == 'multivariate_normal']
     recorded = False
